@@ -56,6 +56,24 @@ Definition frame_sample (uo : bool) (s : Q) (frames : list lframe) (k : nat)
       Some (scale_rows s (fst r), snd r)
   end.
 
+(* SingleInstanceDataset (finding C18 F181): fixedS = false  the class pads to get_max_instances(labels) like
+   the other frame-level classes (current /repo HEAD afd312c: single_sample false = frame_sample);
+   fixedS = true  `self.max_instances = 1` in SingleInstanceDataset.__init__ (fix 30d1c17 in the coordinator's
+   worktree): process_lf adds no NaN padding row.  The harness detects the variant by reading
+   `ds.max_instances` of a SingleInstanceDataset built over a two-instance frame. *)
+Definition frame_sample_m (maxi : nat) (uo : bool) (s : Q) (frames : list lframe) (k : nat)
+  : option (list instance * nat) :=
+  match nth_error (lf_idx_list (ds_frames uo frames)) k with
+  | None => None
+  | Some f =>
+      let r := process_lf uo maxi (rebind uo (nth f frames [])) in
+      Some (scale_rows s (fst r), snd r)
+  end.
+Definition single_max_instances (fixedS : bool) (frames : list lframe) : nat :=
+  if fixedS then 1%nat else max_instances frames.
+Definition single_sample (fixedS uo : bool) (s : Q) (frames : list lframe) (k : nat) :=
+  frame_sample_m (single_max_instances fixedS frames) uo s frames k.
+
 Definition centered_source (uo : bool) (frames : list lframe) (k : nat) : option instance :=
   match nth_error (instance_idx_list (ds_frames uo frames)) k with
   | None => None
@@ -140,3 +158,14 @@ Definition run_ds2 (c : bool * (bool * option nat * bool * Q * list (list (bool 
 Definition run_frame_after (c : bool * bool * list (bool * instance)) : list bool :=
   let '(fixedL, uo, raw) := c in
   map li_user (frame_after fixedL uo (map (fun p => mklinst (fst p) (snd p)) raw)).
+
+(* (fixedS, fixedL, uo, scale, frames) -> SingleInstanceDataset: (max_instances, samples in index order) of a
+   dataset over the labels, and of a SECOND dataset built over the same label objects afterwards *)
+Definition run_single (c : bool * bool * bool * Q * list (list (bool * instance)))
+  : (nat * list (list instance * nat)) * (nat * list (list instance * nat)) :=
+  let '(fixedS, fixedL, uo, s, raw) := c in
+  let frames := of_raw raw in
+  let after := labels_after fixedL uo frames in
+  let one := fun fs => (single_max_instances fixedS fs,
+                        collect (single_sample fixedS uo s fs) (length (lf_idx_list (ds_frames uo fs)))) in
+  (one frames, one after).
